@@ -1,6 +1,6 @@
 (* Chk/C18.v -- correspondence / certificate checks for lapy/conformal.py. *)
 From Coq Require Import List Arith Bool ZArith PrimFloat String.
-From LaPyV Require Import Base.Scalar Base.Vec3 Base.ListAux Base.Sparse Model.TetMesh Model.TriaAdj Model.Conformal Chk.Cmp Chk.C09 Chk.C05.
+From LaPyV Require Import Base.Scalar Base.Vec3 Base.ListAux Base.Sparse Model.TetMesh Model.TriaAdj Model.Fem Model.TriaGeom Model.Conformal Chk.Cmp Chk.C09 Chk.C05.
 Import ListNotations.
 Open Scope float_scope.
 
@@ -14,15 +14,22 @@ Inductive c18case :=
 | CBeltrami (tol : float) (v : list (vec3 float)) (ts : list tri) (m : list (vec3 float)) (obs : result (list CF))
 | CLbs (tol : float) (v : list (vec3 float)) (ts : list tri) (mus : list CF) (lm : list (nat * CF)) (obs : result (list CF))
 | CGate (ts : list tri) (raised : bool)
-| CFinal (tol : float) (mapping : list CF) (obs : list (vec3 float)).
+| CFinal (tol : float) (mapping : list CF) (obs : list (vec3 float))
+(* north-pole stage: recorded answer z0 of the first solve, observed planar points P handed to the south-pole stage,
+   observed landmark indices *)
+(* Moebius correction: parameters found by the optimiser (oracle), input map, returned map *)
+| CMobius (tol : float) (ca cb cc cd : CF) (mapping : list (vec3 float)) (obs : list (vec3 float))
+| CNorth (tol : float) (v : list (vec3 float)) (ts : list tri) (z0 : list CF) (P : list (vec3 float)) (lm : list nat).
 
 (* the solver's answer x is checked against the model's system: residual row by row, both components *)
 Definition lbs_certificate (tol : float) (n : nat) (S : coo float) (b : list CF) (x : list CF) : bool :=
   let xr := vfun Fops (map fst x) in let xi := vfun Fops (map snd x) in
   let Sabs := coo_absf S in
+  (* floor: the magnitude of the whole right-hand side (a unit row with right-hand side 0 is answered with 1e-17, not with 0) *)
+  let gfl := fmaxabs (cflat b) in
   forallb (fun i =>
     let bi := nth i b (0, 0) in
-    let sc := mulvec_at Fops Sabs (fun j => abs (xr j) + abs (xi j)) i + abs (fst bi) + abs (snd bi) in
+    let sc := mulvec_at Fops Sabs (fun j => abs (xr j) + abs (xi j)) i + abs (fst bi) + abs (snd bi) + gfl in
     (abs (mulvec_at Fops S xr i - fst bi) <=? tol * sc) && (abs (mulvec_at Fops S xi i - snd bi) <=? tol * sc)) (iota n).
 
 Definition dummy_csolve (n : nat) (_ : coo float) (_ : list CF) : result (list CF) := Ok (repeat (0, 0) n).
@@ -48,6 +55,25 @@ Definition check_c18 (c : c18case) : list bool :=
       [ true; true; true; match scm_gate ts with Ok _ => negb raised | Err _ => raised end; true ]
   | CFinal tol mapping obs =>
       [ true; true; true; true; v3list_close_fl tol 1 (scm_final Fops mapping) obs ]
+  | CMobius tol ca cb cc cd mapping obs =>
+      [ true; true; true; true; v3list_close_fl tol 1 (mobius_result Fops ca cb cc cd mapping) obs ]
+  | CNorth tol v ts z0 P lm =>
+      let n := List.length v in
+      let big := argmax_first Fops (tria_qualities Fops v ts) in
+      let '(p0, p1, p2) := nth big ts (0, 0, 0)%nat in
+      let A := fem_tria_A Fops v ts in
+      let third := bigtri_third Fops (getv Fops v p0) (getv Fops v p1) (getv Fops v p2) in
+      let cert := lbs_certificate tol n (north_system Fops A [p0; p1; p2]) (north_rhs Fops n p0 p1 p2 third) z0 in
+      let '(_, S2) := north_rescale Fops ts big z0 in
+      let Pm := south_points Fops S2 in
+      let keys := map (vz (K:=float)) S2 in
+      (* the landmarks are the fixnum vertices with the smallest third coordinate (as a set: no key of a landmark exceeds a key
+         of a non-landmark by more than the tolerance) *)
+      let in_lm i := existsb (Nat.eqb i) lm in
+      let kmax := fold_left (fun m i => let k := nth i keys 0 in if m <? k then k else m) lm neg_infinity in
+      let lm_ok := Nat.eqb (List.length lm) (fixnum n) &&
+                   forallb (fun i => in_lm i || (kmax <=? nth i keys 0 + tol)) (iota n) in
+      [ true; true; cert && Nat.eqb (List.length z0) n; lm_ok; v3list_close_fl tol 1 Pm P ]
   end.
 
 (* a harness case may consist of several recorded sub-calls: conjunction per label *)
